@@ -131,9 +131,37 @@ def gen_zero_pad(run):
           for ik in ("int", "mixed"):
             for route in ("kw", "pos", "default-zero", "gen"):
               yield (route, n, left, right, zk, ik)
+  for which in ("left", "right", "both"):
+    for hk in HUGE:
+      for n in (0, 3):
+        yield ("huge", which, hk, n)
+
+
+HUGE = {"2**63": 2 ** 63, "10**30": 10 ** 30, "2**63-1": 2 ** 63 - 1}
+
+
+def run_zero_pad_huge(case):
+  """Pad counts beyond the machine word (any int is a legal count): the stream is lazy, so its
+  first items are observable - left pads first, then the sequence, then the right pads."""
+  which, hk, n = case
+  import itertools
+  big = HUGE[hk]
+  L = items("mixed", n)
+  left, right = (big, 2) if which == "left" else ((2, big) if which == "right" else (big, big))
+  try:
+    got = list(itertools.islice(zero_pad(list(L), left=left, right=right, zero="z"), n + 7))
+  except Exception as exc:
+    return bad("zero_pad:exception:" + type(exc).__name__, "zero_pad with a pad count beyond 2**63 raised",
+               {"left": str(left), "right": str(right)}, str(exc)[:160], True)
+  exp = (["z"] * (n + 7)) if which != "right" else (["z"] * 2 + L + ["z"] * 5)
+  if got != exp:
+    return bad("zero_pad", "zero_pad is not left pads + sequence + right pads (huge pad count)", exp, got, True)
+  return R(None, True, (which, hk))
 
 
 def run_zero_pad(case):
+  if case[0] == "huge":
+    return run_zero_pad_huge(case[1:])
   route, n, left, right, zk, ik = case
   zero = PADS[zk]
   L = items(ik, n)
